@@ -284,6 +284,13 @@ def gen(stratum, rng, tier):
 
 
 def _graph_case(rng, n, edges, negw, s=None, goal=None):
+    if rng.random() < 0.06:
+        # the same graph in tiny units (all weights integer multiples of 2**-40, sums exact): distances are order
+        # relations between sums, no absolute epsilon may decide a relaxation or a negative cycle
+        unit = 2.0 ** -40
+        edges = [(u, v, w * unit) for u, v, w in edges]
+        if negw is not None:
+            negw = [w * unit for w in negw]
     if s is None or rng.random() < 0.15:
         s = rng.randrange(n)
     if goal is None or rng.random() < 0.15:
